@@ -143,6 +143,19 @@ func c02(run *ev.Run) int {
 			srv = srvZ
 			cs = srvZ.Clients(c.http2, append(svc.ProtoOpts(c.proto, c.codec), connect.WithSendGzip())...)
 		}
+		// the same clients over a transport whose response bodies really
+		// close but report an error from Close: the outcome of a call is
+		// what was read before, a late complaint must not replace it
+		hcN, baseN, tapN := srv.HTTPClient(c.http2)
+		tapF := wire.NewTap(tapN.Next)
+		tapF.CloseErr = errors.New("verif: response body close reported a late transport error")
+		_ = hcN
+		copts := svc.ProtoOpts(c.proto, c.codec)
+		if c.z {
+			copts = append(copts, connect.WithSendGzip())
+		}
+		csF := svc.NewClientSet(&http.Client{Transport: tapF}, baseN, copts...)
+		csF.Tap = tapF
 		r := run.Rand("c02/" + cfg)
 		long := 8192
 		nkeys := 8
@@ -179,7 +192,12 @@ func c02(run *ev.Run) int {
 						if !run.Want(key) {
 							continue
 						}
-						c02Case(run, srv, ic, cs, c.kind, c.proto, c.http2, cfg, key, connect.Code(code), cn, texts[cn], src, k, before, nkeys, r)
+						csUse, cfgUse := cs, cfg
+						if run.Rand(key+"/close-fails").Intn(4) == 0 {
+							csUse, cfgUse = csF, cfg+"/body-close-fails"
+							run.Count("errors.with_failing_body_close", 1)
+						}
+						c02Case(run, srv, ic, csUse, c.kind, c.proto, c.http2, cfgUse, key, connect.Code(code), cn, texts[cn], src, k, before, nkeys, r)
 					}
 				}
 			}
